@@ -30,7 +30,7 @@ _G = {}
 
 
 def stable(name):
-    name = re.sub(r'#[0-9TF.]*$', '', name)
+    name = re.sub(r'#[0-9A-Za-z.]*$', '', name)
     name = re.sub(r'@L\d+', '', name)
     return name
 
